@@ -54,6 +54,7 @@ func buildScenario(r *simk.Run, prop string, tightP float64) *simk.Violation {
 	var mp *mempool.Mempool[*chain.Transaction]
 	var builtIDs []ids.ID
 	built := false
+	bigRun := false
 
 	s.Run(r.T, func() {
 		ctx := context.Background()
@@ -195,6 +196,7 @@ func buildScenario(r *simk.Run, prop string, tightP float64) *simk.Violation {
 		// prefetches the next batch on its own goroutine while a client re-submits transactions it already
 		// submitted (a gossip re-delivery)
 		big := c.Bool(0.04)
+		bigRun = big
 		if big {
 			nTx = 262 + c.Intn(100)
 			s.MaxSteps = 1500000
@@ -405,7 +407,10 @@ func buildScenario(r *simk.Run, prop string, tightP float64) *simk.Violation {
 		return &simk.Violation{Class: prop + "/hang", Detail: fmt.Sprintf("block building / verification never returned: parked=[%s]\nsample=%s", s.HangInfo, js(sample))}
 	}
 	// after the run (the restore goroutine ran in the scheduler's epilogue): nothing that was built may still be pooled
-	if built && mp != nil {
+	// (not in the big-mempool variant: there a client re-submits transactions while and after the block is
+	// built, and a transaction re-submitted after the build finished is legitimately pooled again; keeping it
+	// out is the job of admission and of the accept path, not of the mempool)
+	if built && mp != nil && !bigRun {
 		for _, id := range builtIDs {
 			if mp.Has(context.Background(), id) {
 				return &simk.Violation{Class: prop + "/built-tx-still-in-mempool", Detail: fmt.Sprintf("transaction %s is in the built block and still in the mempool after the build finished\nsample=%s", id, js(sample))}
